@@ -28,11 +28,23 @@ theorem c11_response_unique_owner (prog : List (Env × Op)) :
   ⟨h.b1, h.b2, h.ne⟩
 
 /-- **C11 (response writer), nothing is kept.** After flushResponse (which ends with releaseResponse)
-the response holds no pooled buffer any more, whatever happened before (errors included). -/
+the response holds no pooled buffer any more, whatever happened before (errors included) — the two
+`= none` conjuncts hold by definition of `release`; the content is in the other three: the heap has not
+flagged, and whatever the response still held when its flush returned (`finishFlush`) has really gone back to
+the pool: it is dead afterwards.  (NOT claimed: that no other buffer stays live — leak freedom is not part of
+C11 and `Inv` has no "every live id has an owner" clause; the harness audits leaks with the tracker.) -/
 theorem c11_response_released (e : Env) (prog : List (Env × Op)) :
-    (finish e (run {} prog)).1.buffer = none ∧ (finish e (run {} prog)).1.bodyBuffer = none := by
-  unfold finish
-  exact release_empty _
+    let p := (finishFlush e (run {} prog)).1
+    let o := (finish e (run {} prog)).1
+    o.buffer = none ∧ o.bodyBuffer = none ∧ o.heap.bad = none ∧
+      (∀ id n, p.buffer = some (id, n) → o.heap.live id = false) ∧
+      (∀ id n, p.bodyBuffer = some (id, n) → o.heap.live id = false) := by
+  intro p o
+  have hp : Inv 0 (fun _ => false) p := finishFlush_inv e _ (run_inv (B := 0) (S := fun _ => false) {} prog inv_init)
+  have ho : o = release p := rfl
+  have hd := release_dead p hp
+  rw [ho]
+  exact ⟨(release_empty p).1, (release_empty p).2, (release_inv p hp).ok, hd.1, hd.2⟩
 
 /-! ### non-vacuity -/
 
